@@ -14,7 +14,7 @@ LEVEL_TEXT = ("Lean theorems over every schedule of the session LTS (commands, b
               "C02_partial (at close every line of every dispatched command has been delivered, provided no command was dispatched after the "
               "session had gone idle), C02_syn_after_lines, C02_full_false (the idle-between-commands witness); tied to the code by scripted "
               "sessions on the real ServerHandler (the harness is the consumer: reads, stalls, sends commands) replayed on the LTS, and by the "
-              "real dcat binary with a throttled stdout, serverless and over SSH")
+              "real dcat binary with a throttled stdout, serverless and over SSH; C02_every_schedule_is_finite (every step decreases a measure: at most 2·lines + 2·commands + 3 steps under any schedule) and C02_ends_by_itself (an execution that cannot be continued is the closed session); further end-to-end ops: c02.many (hundreds of files in one session), c02.eofstall (the consumer stalls for 7 s exactly at the end of the file)")
 TRUSTED = ["Lean 4 kernel", "axioms: propext, Quot.sound, Classical.choice (at most)", "fact extractor (queue capacity, canSkipLines of the cat reader)",
            "overlay harness + dtmodel driver + this diff",
            "modelled not verified: goroutine scheduling and real time (the labels; the 10 ms flush polls are the flushDone label), Go channel semantics, "
